@@ -369,9 +369,11 @@ def replay(ctx):
 MANIFEST_ENTRY = {
     'engine': 'crosshair+sched',
     'technique': 'content: bounded symbolic execution (CrossHair/z3) of the real transaction -> report path with symbolic counters and '
-                 'payload; ordering: recorded event templates + SMT over writer interleavings (z3), gated replay',
+                 'payload; ordering and the retrievability-driven periodic loop: recorded event templates + SMT over interleavings (z3), '
+                 'gated replay',
     'text': 'Content obligations are explored to path exhaustion for all version counters / short payload strings; ordering obligations '
-            'are unsat results over all interleavings of 2-3 recorded writer templates (sync and async managers).',
+            'are unsat results over all interleavings of 2-3 recorded writer templates (sync and async managers); periodic obligations: '
+            'unsat over all interleavings of one loop iteration with 1-2 committing writers (label read identified by taint tracking).',
     'note': 'Schema validity of the emitted XML is NOT decided (libxml2 XSD engine is outside the technique); ordering at lock/send '
             'granularity of recorded templates; delivery below send_to_subscribers (sockets, asyncio loop) is outside.',
 }
